@@ -19,6 +19,7 @@ type item struct {
 	t   time.Time
 
 	enqInvoke, enqReturn uint64
+	enqBack              uint64 // stamp taken the moment Enqueue returned
 	enqReturnTime        time.Time
 	execs                int
 	never                bool
@@ -45,6 +46,7 @@ type op struct {
 	// dequeue stamps
 	invoke, ret uint64
 	retTime     time.Time
+	back        uint64 // stamp taken the moment the call returned (ret is taken one scheduling point later)
 }
 
 var offsets = []time.Duration{-time.Millisecond, 0, 300 * time.Microsecond, 500*time.Microsecond - 500*time.Nanosecond, 500 * time.Microsecond, 500*time.Microsecond + 500*time.Nanosecond, time.Millisecond, 2 * time.Millisecond, 3 * time.Millisecond, 5 * time.Millisecond, 8 * time.Millisecond}
@@ -154,6 +156,11 @@ func body(s *simrt.Sim, tier string) {
 
 	var closeInvoke, closeReturn uint64
 	inCallback := 0
+	type cbRec struct {
+		it         *item
+		start, end uint64
+	}
+	var cbs []*cbRec
 	var cbTime time.Duration // total time spent inside callbacks (they delay the items behind them)
 	p := queue.NewProcessor[string, *item](func(it *item) {
 		it.execs++
@@ -166,11 +173,14 @@ func body(s *simrt.Sim, tier string) {
 			s.Fail("exec-after-close", fmt.Sprintf("item i%d executed at step %d after Close returned at step %d", it.id, s.Stamp(), closeReturn))
 		}
 		inCallback++
+		cb := &cbRec{it: it, start: s.Stamp()}
+		cbs = append(cbs, cb)
 		s.Yield("callback")
 		if s.Choose(4, "cb.slow") == 0 {
 			s.Sleep(300 * time.Microsecond) // a callback that takes a while: Close must wait for it
 			cbTime += 300 * time.Microsecond
 		}
+		cb.end = s.Stamp()
 		inCallback--
 	})
 	// closeOnce is what every Close caller does: on return no callback may be running
@@ -204,6 +214,7 @@ func body(s *simrt.Sim, tier string) {
 					o.it.enqInvoke = s.Stamp()
 					s.Logf("enq i%d %s +%v", o.it.id, o.key, o.off)
 					p.Enqueue(o.it)
+					o.it.enqBack = s.Stamp()
 					s.Yield("enq.ret")
 					o.it.enqReturn = s.Stamp()
 					o.it.enqReturnTime = time.Now()
@@ -211,6 +222,7 @@ func body(s *simrt.Sim, tier string) {
 					o.invoke = s.Stamp()
 					s.Logf("deq %s", o.key)
 					p.Dequeue(o.key)
+					o.back = s.Stamp()
 					s.Yield("deq.ret")
 					o.ret = s.Stamp()
 					o.retTime = time.Now()
@@ -247,15 +259,16 @@ func body(s *simrt.Sim, tier string) {
 	type removal struct {
 		invoke, ret uint64
 		retTime     time.Time
+		back        uint64
 	}
 	removals := map[string][]removal{}
 	for _, l := range ops {
 		for _, o := range l {
 			if o.kind == opDeq {
-				removals[o.key] = append(removals[o.key], removal{o.invoke, o.ret, o.retTime})
+				removals[o.key] = append(removals[o.key], removal{o.invoke, o.ret, o.retTime, o.back})
 			}
 			if o.kind == opEnq {
-				removals[o.key] = append(removals[o.key], removal{o.it.enqInvoke, o.it.enqReturn, o.it.enqReturnTime})
+				removals[o.key] = append(removals[o.key], removal{o.it.enqInvoke, o.it.enqReturn, o.it.enqReturnTime, o.it.enqBack})
 			}
 		}
 	}
@@ -287,6 +300,19 @@ func body(s *simrt.Sim, tier string) {
 					surelyRemoved = true
 					if removedBy == 0 || r.ret < removedBy {
 						removedBy = r.ret
+					}
+				}
+				// ... or it ran from start to end while the loop was inside the callback of another item, strictly
+				// before x's scheduled time: the loop cannot have taken x for its "up to 0.5 ms early" execution
+				// meanwhile, x was still queued, and an item dequeued or replaced before it became due is never run
+				if r.retTime.Before(x.t) && r.back != 0 && (x.execs == 0 || r.back < x.execStep) {
+					for _, c := range cbs {
+						if c.it != x && c.start < r.invoke && c.end != 0 && r.back < c.end {
+							surelyRemoved = true
+							if removedBy == 0 || r.back < removedBy {
+								removedBy = r.back
+							}
+						}
 					}
 				}
 				maybeRemoved = true
